@@ -78,7 +78,19 @@ func exprList(r *Rng, n int) string {
 
 func genC14Stmt(r *Rng, reading bool) c14Stmt {
 	for {
-		switch k := r.Intn(37); {
+		switch k := r.Intn(39); {
+		case k == 37 || k == 38:
+			// outer joins: the record a join hands on (matched, or padded with NULLs) comes from the join's own
+			// record pool and must not go back to it
+			return c14Stmt{Src: r.PickS(
+				"SELECT a.id, b.id, b.w FROM a FULL OUTER JOIN b ON a.id = b.id AND b.w > 3 ORDER BY a.id, b.id;",
+				"SELECT a.id, a.s, b.w FROM a LEFT OUTER JOIN b ON a.g = b.g AND a.v < b.w ORDER BY a.id, b.w;",
+				"SELECT b.id, b.w, a.s FROM a RIGHT OUTER JOIN b ON a.id = b.id + 1 ORDER BY b.id, a.s;",
+				"VAR @o := 0; WHILE @o < 2 DO SELECT COUNT(*), COUNT(a.id), COUNT(b.id), SUM(b.w) FROM a FULL OUTER JOIN b ON a.id = b.id + @o; @o := @o + 1; END WHILE; DISPOSE @o;",
+				"PREPARE po FROM 'SELECT a.id, b.w FROM a FULL OUTER JOIN b ON a.id = b.id AND IFNULL(a.v, 0) > ? ORDER BY a.id, b.w'; EXECUTE po USING 0; EXECUTE po USING 4; EXECUTE po USING 0; DISPOSE PREPARE po;",
+				"SELECT x.id, y.id, z.id FROM a x LEFT OUTER JOIN a y ON x.id = y.id - 1 FULL OUTER JOIN b z ON y.id = z.id ORDER BY x.id, y.id, z.id;",
+				"SELECT id, (SELECT COUNT(y.id) FROM b x FULL OUTER JOIN b y ON x.id = y.id + 1 AND x.g = a.g) AS n FROM a ORDER BY id;",
+				"SELECT a.id, b.w FROM a JOIN b ON a.g = b.g AND a.id <> b.id WHERE a.id < 6 ORDER BY a.id, b.w, b.id;"), Repeat: 2, Reads: true}
 		case k == 35 || k == 36:
 			// comma-separated FROM lists (folded into cross joins when the view is loaded), evaluated more than once
 			return c14Stmt{Src: r.PickS(
@@ -641,6 +653,7 @@ func (c14) Eval(t *testing.T, c *Case, dec func(int) *Decider) *Outcome {
 				o.NonTrivial = true
 			}
 			o.Stats.Probes = addProbe(o.Stats.Probes, "pool-objects-reissued", res.PoolReissued)
+			o.Stats.Probes = addProbe(o.Stats.Probes, "join-record-pool-reissued", res.DynReissued)
 		}
 		if res.Hang != "" || res.LimitHit || res.BubbleErr != "" || res.Procs[0].Panic != "" {
 			o.viol(prop, "termination", "hang-or-panic:"+pol, fmt.Sprintf("run with pool policy %s did not end normally: %s %s %s", pol, res.Hang, res.BubbleErr, res.Procs[0].Panic))
